@@ -278,7 +278,7 @@ class MemoryFileSystem(FileSystem):
     file = self._locate(path)
     if isinstance(file, dict):
       raise IsADirectoryError(path)
-    if 'w' in mode and file is None:
+    if ('w' in mode or 'a' in mode) and file is None:
       parent_dir, name = self._parent_and_name(path)
       if isinstance(parent_dir, dict):
         buffer = io.BytesIO() if 'b' in mode else io.StringIO()
@@ -290,6 +290,9 @@ class MemoryFileSystem(FileSystem):
 
     if file is None:
       raise FileNotFoundError(path)
+    if 'a' in mode:
+      # Appending starts at the end of the existing content.
+      file.seek(0, 2)
     return file
 
   def chmod(self, path: Union[str, os.PathLike[str]], mode: int) -> None:
